@@ -103,7 +103,11 @@ struct Exec {
 		} else if(r.op == "run") {
 			Ev("RunCall").i("a", a).emit();
 			cur_op() = "run"; agent[t]->run(); cur_op() = "";
-			Ev("RunRet").i("a", a).emit();
+			{	// the nodes still queued anywhere (their target is cleared when run() takes them out of the queue)
+				std::vector<long long> pend;
+				for(int n = 1; n <= nnodes; n++) if(g_nodes[n] && !g_nodes[n]->poisoned && g_nodes[n]->node._target_qs_counter) pend.push_back(n);
+				Ev("RunRet").i("a", a).raw("pend", jarr(pend)).emit();
+			}
 		} else if(r.op == "barrier") {
 			Ev("BarrierCall").i("a", a).emit();
 			cur_op() = "barrier"; agent[t]->quiescent_barrier(); cur_op() = "";
